@@ -445,7 +445,7 @@ PLANE = {
     "absolute": None, "sqrt": None, "square": "overflow",
     "atanh": "x~1", "atan": "y~1", "asin": "x~1", "acos": "x~1", "acosh": "x~1", "asinh": "y~1",
 }
-PLANE_QUICK = {"absolute", "sqrt", "square", "atanh", "atan"}
+PLANE_QUICK = set(PLANE)  # all of them: with the overflow band left to R1.1/R1.5 the asin family takes a few seconds
 
 
 def _analyse_plane(root, ctype, name, tier):
